@@ -822,6 +822,21 @@ func hangSite(stack string) string {
 			}
 		}
 	}
+	// Nobody runs and nobody waits for a lock: a goroutine parked inside the
+	// library for good (a read on a real socket nothing will ever end).
+	for _, g := range strings.Split(stack, "\n\n") {
+		if !strings.Contains(g, "[IO wait") && !strings.Contains(g, "[select") && !strings.Contains(g, "[chan ") {
+			continue
+		}
+		for _, l := range strings.Split(g, "\n") {
+			if strings.HasPrefix(l, "github.com/gobwas/ws") {
+				if i := strings.LastIndex(l, "("); i > 0 {
+					l = l[:i]
+				}
+				return l + " (parked)"
+			}
+		}
+	}
 	return ""
 }
 
